@@ -80,6 +80,7 @@ type rWorld struct {
 	km     kindMap
 	tb     *vtable
 	noFrom bool
+	built  bool
 }
 
 func (w *rWorld) project() []rEntry {
@@ -134,6 +135,12 @@ func (w *rWorld) apply(op rOp) (ret string, applicable bool) {
 		switch op.Op {
 		case "New":
 			res := newRes(op.Impl, op.TName, op.Fields, w.km)
+			if op.Impl == "soft" && w.built && op.TName != "" {
+				// a soft resource over a type that BuildType made from the struct with the same fields
+				bt, err := jsonapi.BuildType(reflect.New(structType(op.TName, op.Fields, w.km)).Interface())
+				must(err)
+				res = &jsonapi.SoftResource{Type: &bt}
+			}
 			if sr, ok := res.(*jsonapi.SoftResource); ok && w.noFrom {
 				for k, r := range sr.Type.Rels {
 					r.FromType = ""
@@ -167,11 +174,11 @@ func (w *rWorld) apply(op rOp) (ret string, applicable bool) {
 		case "Copy":
 			cp := o.res.(jsonapi.Copier).Copy()
 			sameDefs = reflect.DeepEqual(normDefs(o.res.Attrs(), o.res.Rels()), normDefs(cp.Attrs(), cp.Rels()))
-			w.objs = append(w.objs, rObj{impl: o.impl, res: cp})
+			w.objs = append(w.objs, rObj{impl: implOf(cp, o.impl), res: cp})
 		case "NewLike":
 			nw := o.res.(jsonapi.Copier).New()
 			sameDefs = reflect.DeepEqual(normDefs(o.res.Attrs(), o.res.Rels()), normDefs(nw.Attrs(), nw.Rels()))
-			w.objs = append(w.objs, rObj{impl: o.impl, res: nw})
+			w.objs = append(w.objs, rObj{impl: implOf(nw, o.impl), res: nw})
 		case "TypeCopy":
 			src := o.res.GetType()
 			t := src.Copy()
@@ -339,7 +346,7 @@ func runResourceCase(c rCase) (ev rEvent, ok bool) {
 		}
 		return ev, true
 	}
-	w := &rWorld{km: km, tb: tb, noFrom: c.Var.NoFrom}
+	w := &rWorld{km: km, tb: tb, noFrom: c.Var.NoFrom, built: c.Var.Built}
 	for _, op := range c.Hist {
 		if _, app := w.apply(op); !app {
 			return ev, false // the history itself is not realisable under this variant
@@ -365,6 +372,18 @@ func runResourceCase(c rCase) (ev rEvent, ok bool) {
 		ev.Post = ev.Pre
 	}
 	return ev, true
+}
+
+// implOf: which implementation a copy or a new resource really is (a copy of a soft resource is a
+// soft resource, of a wrapped struct a wrapped struct)
+func implOf(r jsonapi.Resource, dflt string) string {
+	switch r.(type) {
+	case *jsonapi.SoftResource:
+		return "soft"
+	case *jsonapi.Wrapper:
+		return "wrap"
+	}
+	return dflt
 }
 
 func resourceMain(args []string) {
@@ -431,7 +450,7 @@ func resourceMain(args []string) {
 	}
 	w := newEvWriter(*out, 40000)
 	variant := func() cVariant {
-		v := cVariant{Shift: rng.Intn(len(nonBool)), Table: rng.Intn(3), NoFrom: rng.Intn(3) == 0}
+		v := cVariant{Shift: rng.Intn(len(nonBool)), Table: rng.Intn(3), NoFrom: rng.Intn(3) == 0, Built: rng.Intn(4) == 0}
 		if rng.Intn(2) == 0 {
 			v.Shift = 0 // the byte-string kinds sit at shift 0
 		}
